@@ -94,7 +94,7 @@ func (e *engine) Meta() harness.Meta {
 
 var watched = []string{
 	"*repl-prompt*", "*repl-warning-prefix*", "*repl-match-color*", "*repl-history-limit*",
-	"*repl-eval-on-close*", "*repl-help-box*",
+	"*repl-eval-on-close*", "*repl-help-box*", "*repl-editor-flags*", "*repl-external-editor*",
 	"*print-base*", "*print-radix*", "*print-right-margin*", "*print-pretty*", "*print-case*",
 	"*print-length*", "*print-level*", "*print-lines*", "*print-miser-width*", "*print-prec*",
 	"*print-escape*", "*print-readably*", "*print-array*", "*print-circle*", "*print-gensym*",
@@ -103,30 +103,32 @@ var watched = []string{
 }
 
 var settingValues = map[string][]string{
-	"*repl-prompt*":         {`"> "`, `"λ "`, `"\u001b[1m$ \u001b[m"`, `"a\"b "`, `"back\\slash "`, `"slip> "`},
-	"*repl-warning-prefix*": {`"! "`, `"\u001b[31m"`, `""`},
-	"*repl-match-color*":    {`"\u001b[7m"`, `"\u001b[1m"`, `""`},
-	"*repl-eval-on-close*":  {"t", "nil"},
-	"*repl-help-box*":       {"t", "nil"},
-	"*print-base*":          {"2", "8", "10", "16"},
-	"*print-radix*":         {"t", "nil"},
-	"*print-right-margin*":  {"40", "72", "120"},
-	"*print-pretty*":        {"t", "nil"},
-	"*print-case*":          {":upcase", ":downcase", ":capitalize"},
-	"*print-length*":        {"nil", "5", "100"},
-	"*print-level*":         {"nil", "3"},
-	"*print-lines*":         {"nil", "10"},
-	"*print-miser-width*":   {"0", "20"},
-	"*print-prec*":          {"3", "7", "-1"},
-	"*print-escape*":        {"t", "nil"},
-	"*print-readably*":      {"t", "nil"},
-	"*print-array*":         {"t", "nil"},
-	"*print-circle*":        {"t", "nil"},
-	"*print-gensym*":        {"t", "nil"},
-	"*print-lambda*":        {"t", "nil"},
-	"*print-ansi*":          {"t", "nil"},
-	"*bag-time-format*":     {`"2006-01-02"`, `"time"`, `"second"`},
-	"*bag-time-wrap*":       {`"time"`, `"@"`},
+	"*repl-prompt*":          {`"> "`, `"λ "`, `"\u001b[1m$ \u001b[m"`, `"a\"b "`, `"back\\slash "`, `"slip> "`},
+	"*repl-warning-prefix*":  {`"! "`, `"\u001b[31m"`, `""`},
+	"*repl-match-color*":     {`"\u001b[7m"`, `"\u001b[1m"`, `""`},
+	"*repl-eval-on-close*":   {"t", "nil"},
+	"*repl-editor-flags*":    {`("-nw")`, `("-nw" "two words" "q\"uote")`, "nil"},
+	"*repl-external-editor*": {`"vi"`, `"/usr/bin/my editor"`, `""`},
+	"*repl-help-box*":        {"t", "nil"},
+	"*print-base*":           {"2", "8", "10", "16"},
+	"*print-radix*":          {"t", "nil"},
+	"*print-right-margin*":   {"40", "72", "120"},
+	"*print-pretty*":         {"t", "nil"},
+	"*print-case*":           {":upcase", ":downcase", ":capitalize"},
+	"*print-length*":         {"nil", "5", "100"},
+	"*print-level*":          {"nil", "3"},
+	"*print-lines*":          {"nil", "10"},
+	"*print-miser-width*":    {"0", "20"},
+	"*print-prec*":           {"3", "7", "-1"},
+	"*print-escape*":         {"t", "nil"},
+	"*print-readably*":       {"t", "nil"},
+	"*print-array*":          {"t", "nil"},
+	"*print-circle*":         {"t", "nil"},
+	"*print-gensym*":         {"t", "nil"},
+	"*print-lambda*":         {"t", "nil"},
+	"*print-ansi*":           {"t", "nil"},
+	"*bag-time-format*":      {`"2006-01-02"`, `"time"`, `"second"`},
+	"*bag-time-wrap*":        {`"time"`, `"@"`},
 }
 
 // ---- generation ----
@@ -211,6 +213,9 @@ func (e *engine) Generate(seed uint64, idx int, tier string, avoid []harness.Fin
 	if r.Pct(20) {
 		limit = 10 + r.Intn(30)
 	}
+	if r.Pct(8) {
+		limit = r.Intn(3) // 0 (history off), 1, 2
+	}
 	c.Ops = append(c.Ops, Op{K: "limit", A: limit})
 	// swarm: per-case operation mix
 	wHist := 40 + r.Intn(50)
@@ -263,7 +268,11 @@ func (e *engine) Generate(seed uint64, idx int, tier string, avoid []harness.Fin
 		case x < wHist+wStash+wSet+wClear+wRestart:
 			c.Ops = append(c.Ops, Op{K: "restart"})
 		default:
-			c.Ops = append(c.Ops, Op{K: "limit", A: 3 + r.Intn(20)})
+			if r.Pct(10) {
+				c.Ops = append(c.Ops, Op{K: "limit", A: r.Intn(3)})
+			} else {
+				c.Ops = append(c.Ops, Op{K: "limit", A: 3 + r.Intn(20)})
+			}
 		}
 	}
 	b, _ := json.Marshal(c)
